@@ -11,6 +11,18 @@ CHECKS = {
    technique="runtime monitoring: differential wire-format monitor (captured bytes vs independent reference encoder; reference-encoded streams incl. non-minimal length forms fed to the real reader)",
    text="Captured wire bytes of every generated message are compared byte-for-byte with an independent encoder written from the framing text (one minimal frame per message); conversely reference streams with minimal and non-minimal 16/64-bit length forms and zero-length frames are fed to the real reader and must yield the same messages.",
    note="Trusts refcodec.WTFrame (40 lines, itself cross-checked by its own decoder)."),
+ "C15": dict(level="fault_enumeration", design="§4 C15",
+   technique="runtime monitoring with fault enumeration: every corpus stream cut at every byte offset, ended by EOF and by an injected stream error, x read limits x consumption patterns; each return value of the real reader checked online against a reference parse",
+   text="The real webtransport reader is driven over a corpus of byte streams (valid frame sequences incl. non-minimal forms, bit mutations, random bytes, 64-bit lengths up to 2^64-1), each truncated at EVERY offset and terminated by EOF and by an injected error, under six read limits and three consumption patterns; an online oracle checks no panic, bytes <= declared and <= supplied, limit -> ErrReadLimit + session close (hooked shim), truncated frame never reported complete, sticky errors. Fault points are enumerated completely per stream; the stream corpus itself is sampled.",
+   note="Trusts the reference header parser (20 lines) and the fakenet stream; the close-shim hook wt.nilSession.CloseWithError stands in for the QUIC session."),
+ "C19": dict(level="exploration", design="§4 C19",
+   technique="runtime monitoring on virtual time (testing/synctest): reference-schedule oracle over callback timestamps, cancel-return watchdog, bubble goroutine-leftover scan, gate-scheduled interleavings at hook points, race detector",
+   text="PRNG operation sequences on 1-3 timers run inside a synctest bubble so every due instant is exact; callbacks are compared with a reference schedule (required / optional only when an operation coincides with the due instant / forbidden), every cancel must return, and goroutines left in the bubble are listed from the runtime's own dump. Gate lanes place a cancel between an interval's tick and its re-arm and a second cancel between the runtime Stop and its signal.",
+   note="Virtual time is Go's synctest clock; the two hook points are build-tagged yield points in utils/timer.go. Refresh on intervals / after cancel and concurrent Refresh are outside what is generated (stated in evidence assumptions)."),
+ "C20": dict(level="exploration", design="§4 C20",
+   technique="runtime monitoring: model-based differential sequences (reference slice/map/set/emitter models, caller-array sentinel overwrite for aliasing) + recorded concurrent histories checked for linearizability with porcupine + id-uniqueness multiset + race detector",
+   text="Sequential contracts: PRNG sequences over the full method sets compared result-by-result with reference models (Slice incl. caller slices with spare capacity that are overwritten after the call; Map over int, string, pointer and zero-size values; emitter with nil listeners, duplicates, Once, re-entrant add/remove). Concurrent contracts: thousands of short recorded histories (2-8 goroutines, unique written values, per-key partition) checked by porcupine; Once under concurrent emits; 16-goroutine id storms; any race report inside types/ or utils/ is a violation.",
+   note="Trusts porcupine v1.3.0 and the 15-line sequential models; history timestamps come from one atomic logical clock stamped before the call and after the return."),
 }
 m = dict(
  version=1,
